@@ -46,6 +46,43 @@ func newMGraph(names ...string) *mGraph {
 	return g
 }
 
+// dataset lifecycle in the model
+func (g *mGraph) createDS(name string) {
+	g.DS[name] = &mDataset{Name: name, Latest: map[string]*mVersion{}}
+	g.Names = append(g.Names, name)
+}
+
+func (g *mGraph) deleteDS(name string) {
+	delete(g.DS, name)
+	for i, n := range g.Names {
+		if n == name {
+			g.Names = append(g.Names[:i:i], g.Names[i+1:]...)
+			break
+		}
+	}
+	for ds := range g.ever {
+		if ds == name {
+			delete(g.ever, ds)
+		}
+	}
+}
+
+func (g *mGraph) renameDS(old, name string) {
+	d := g.DS[old]
+	delete(g.DS, old)
+	d.Name = name
+	g.DS[name] = d
+	for i, n := range g.Names {
+		if n == old {
+			g.Names[i] = name
+		}
+	}
+	if e, ok := g.ever[old]; ok {
+		g.ever[name] = e
+		delete(g.ever, old)
+	}
+}
+
 func mSameVersion(a, b *mVersion) bool {
 	if a.Deleted != b.Deleted || len(a.Props) != len(b.Props) || len(a.Refs) != len(b.Refs) {
 		return false
